@@ -45,6 +45,14 @@ def cmdrec(c):
         return {"verb": v, "key": list(c["key"]), "exptime": str(c["exptime"]), "noreply": c["noreply"]}
     if v == "flush_all":
         return {"verb": v, "delay": str(c["delay"]), "noreply": c["noreply"]}
+    if v == "stats":
+        return {"verb": v, "keys": [list(k) for k in c["args"]], "exptime": "", "noreply": False}
+    if v == "cache_memlimit":
+        return {"verb": v, "limit": str(c["limit"]), "noreply": c["noreply"]}
+    if v in ("version", "quit"):
+        return {"verb": v, "noreply": c["noreply"]}
+    if v == "shutdown":
+        return {"verb": v, "graceful": c["graceful"], "noreply": False}
     return {"verb": "PARSE-ERROR", "why": "unexpected verb " + v}
 
 
@@ -72,7 +80,7 @@ MULTI = ["set_many", "get_many", "gets_many", "delete_many"]
 
 class Case:
     def __init__(self, op, keys, value=b"v", exp=0, flags=None, cas=1, delta=1, nrarg="none", dnr=True,
-                 stack="client", prefix=b"", unicode=False, encoding="ascii", badarg=False, serde="none"):
+                 stack="client", prefix=b"", unicode=False, encoding="ascii", badarg=False, serde="none", graceful=False):
         self.__dict__.update(locals())
         del self.__dict__["self"]
 
@@ -109,6 +117,16 @@ def run_case(c, stacks):
             cl.touch(keys[0], expire=c.exp, **kw)
         elif op == "flush_all":
             cl.flush_all(delay=c.exp, **kw)
+        elif op == "stats":
+            cl.stats(*keys)
+        elif op == "cache_memlimit":
+            cl.cache_memlimit(c.exp)
+        elif op == "version":
+            cl.version()
+        elif op == "quit":
+            cl.quit()
+        elif op == "shutdown":
+            cl.shutdown(graceful=c.graceful)
         else:
             raise ValueError(op)
     except MemcacheIllegalInputError:
@@ -139,8 +157,9 @@ def run_case(c, stacks):
         if isinstance(x, bytes):
             return x.decode("latin1")
         return str(x)
-    ev = {"e": "call", "op": op, "stack": c.stack, "keys": [keyrec(k) for k in keys], "unicode": c.unicode,
-          "prefix": list(c.prefix), "nrarg": c.nrarg, "dnr": c.dnr, "exp": dec(c.exp), "flags": dec(flags),
+    # the arguments of stats are validated like keys but are not keys: no prefix applies to them
+    ev = {"e": "call", "op": op, "stack": c.stack, "keys": [keyrec(k) for k in keys], "unicode": c.unicode, "graceful": c.graceful,
+          "prefix": list(c.prefix) if op != "stats" else [], "nrarg": c.nrarg, "dnr": c.dnr, "exp": dec(c.exp), "flags": dec(flags),
           "cas": dec(c.cas), "delta": dec(c.delta), "badarg": c.badarg or vb is None,
           "data": [desc(vb) if vb is not None else "?"] * nkeys, "lens": [str(len(vb)) if vb is not None else "?"] * nkeys,
           "outcome": outcome, "nsent": len(raw), "cmds": cmds, "leftover": p.partial}
@@ -234,6 +253,32 @@ def gen_cases(tier, seed):
         for cas in ("\u00b2", "\u0661\u0662\u0663", "\uff11\uff12", b"\xb2"):
             for enc in ("ascii", "utf-8", "latin-1"):
                 cases.append(Case("cas", ["k"], cas=cas, stack=st, encoding=enc, badarg=True))
+    # 4c. operations without keys, and stats arguments (validated like keys, never prefixed).  Sequences on ONE client that use
+    # the same text as a stats argument / memory limit and as a key (the stack is shared by consecutive cases)
+    for st in ("client", "pooled"):
+        for pf in prefixes[:2]:
+            for uni in (False, True):
+                cf = dict(stack=st, prefix=pf, unicode=uni)
+                for a in ([], ["items"], ["slabs"], ["settings"], ["cachedump", "1", "2"], ["a b"], ["x\r\nflush_all"], ["é"], [b"\x00"], ["i" * 251]):
+                    cases.append(Case("stats", a, **cf))
+                for seq in (["stats:items", "get:items", "set:items"], ["get:slabs", "stats:slabs", "delete:slabs"],
+                            ["memlimit:64", "incr:64", "get:64"], ["touch:1024", "memlimit:1024", "stats:1024", "gets:1024"]):
+                    for step in seq:
+                        o, a = step.split(":")
+                        if o == "memlimit":
+                            cases.append(Case("cache_memlimit", [], exp=int(a), **cf))
+                        elif o == "stats":
+                            cases.append(Case("stats", [a], **cf))
+                        else:
+                            cases.append(Case(o, [a if len(cases) % 2 else a.encode()], nrarg="false", **cf))
+                for lim in (0, 1, 2 ** 64 - 1):
+                    cases.append(Case("cache_memlimit", [], exp=lim, **cf))
+                for bad in ("64", 1.5, None):
+                    cases.append(Case("cache_memlimit", [], exp=bad, badarg=True, **cf))
+                cases.append(Case("version", [], **cf))
+                for g in (False, True):
+                    cases.append(Case("shutdown", [], graceful=g, **cf))
+                cases.append(Case("quit", [], **cf))
     # 5. seeded random combinations
     for _ in range(600 if tier == "quick" else 20000):
         op = rnd.choice(STORE1 + SINGLE + MULTI)
@@ -281,7 +326,11 @@ def main(tier, rep):
     grammar_model(tier, rep)
     cases = gen_cases(tier, common.seed())
     evs = []
-    for c in cases:
+    allcases, cases = cases, []
+    for c in allcases:
+        if not hasattr(stacks(c)[1], c.op):
+            continue                 # not part of this stack's public interface (e.g. PooledClient.cache_memlimit)
+        cases.append(c)
         evs.append(run_case(c, stacks))
         # cases are independent: a call that left the connection out of sync (e.g. the known empty-key finding, whose
         # malformed noreply command the server answers with an error line nobody reads) must not leak into the next one
@@ -344,6 +393,14 @@ def protorec(c):
         return {"verb": v, "key": list(c["key"]), "exptime": num(c["exptime"]), "noreply": c["noreply"]}
     if v == "flush_all":
         return {"verb": v, "delay": num(c["delay"]), "noreply": c["noreply"]}
+    if v == "stats":
+        return {"verb": v, "keys": [list(k) for k in c["args"]], "exptime": [], "noreply": False}
+    if v == "cache_memlimit":
+        return {"verb": v, "limit": num(c["limit"]), "noreply": c["noreply"]}
+    if v in ("version", "quit"):
+        return {"verb": v, "noreply": c["noreply"]}
+    if v == "shutdown":
+        return {"verb": v, "graceful": c["graceful"], "noreply": False}
     return {"verb": "PARSE-ERROR"}
 
 
